@@ -113,6 +113,19 @@ def apply_stage(scfg: SCFG, stage: str) -> None:
     if stage == "restructure":
         scfg.restructure()
         return
+    if stage == "levelwise":
+        # the same pipeline driven level by level: the non-recursive transformation on the top region, then the
+        # public stage driver of every top-level region's own sub-graph (which recurses below it)
+        from numba_scfg.core import transformations as T
+
+        scfg.join_returns()
+        T.restructure_loop(scfg.region)
+        for name in [k for k, b in scfg.graph.items() if isinstance(b, RegionBlock)]:
+            scfg.graph[name].subregion.restructure_loop()
+        T.restructure_branch(scfg.region)
+        for name in [k for k, b in scfg.graph.items() if isinstance(b, RegionBlock)]:
+            scfg.graph[name].subregion.restructure_branch()
+        return
     scfg.join_returns()
     if stage in ("loop", "branch"):
         scfg.restructure_loop()
